@@ -524,6 +524,18 @@ func c09StateDefault(c *Ctx, R string) {
 				}
 			}
 		}
+		// every result is the default block or the slice rebuilt by the loop over ALL
+		// match blocks: handing the parameter back untouched skips the defaulting
+		{
+			matchP := sig.Params().At(0)
+			bad := ""
+			for _, r := range returnsIn(drm.Decl.Body.List) {
+				if len(r.Results) == 1 && isObj(info, r.Results[0], matchP) {
+					bad = p.Pos(r.Pos())
+				}
+			}
+			c.Check(bad == "", R, "defaultRuleMatch:never returns its input untouched", drm.Decl.Pos(), "results are rebuilt block by block", "the match blocks are handed back unchanged at "+bad+": a block without `state` keeps an empty state list (no command default) whenever that shortcut is taken, e.g. because a sibling block sets `state`")
+		}
 		c.Check(okEmpty, R, "defaultRuleMatch:no match block -> state-only default block", drm.Decl.Pos(), "Match{State: defaultStates}", "a rule block without match{} no longer gets the state-only default")
 	}
 }
